@@ -2,7 +2,7 @@ SPEC = {
     'id': 'C11',
     'harness': 'hC11',
     'coq_dir': 'C11',
-    'claimed': False,
+    'claimed': True,
     'theorems': [
         'C11_model_refines_spec_partial', 'C11_failed_tx_equiv_fee_only_partial', 'C11_guard_example',
         'C11_guard_spec_level',
